@@ -132,9 +132,11 @@ def run_property(pid, spec, tier, seed, t0):
                 C.RUNNERS[kind] = c["runner"]
             n = c["quick"] if quick else c["thorough"]
             env = c.get("env")
-            r = C.run_corpus(pid, kind, compare_model=model_ok)
-            r.merge(C.run_corr(kind, seed, n, compare_model=model_ok and c.get("model", True), extra_env=env))
-            per_kind[kind] = {"evaluations": r.evaluations, "compared_with_model": r.compared,
+            # a second entry of the same kind (another environment) carries a label and its own seed offset
+            label = c.get("label", kind)
+            r = C.run_corpus(pid, kind, compare_model=model_ok) if label == kind else C.CorrResult()
+            r.merge(C.run_corr(kind, seed + c.get("seed_offset", 0), n, compare_model=model_ok and c.get("model", True), extra_env=env))
+            per_kind[label] = {"evaluations": r.evaluations, "compared_with_model": r.compared,
                               "disagreements": len(r.disagreements), "oracle_ok": r.oracle_ok,
                               "oracle_fail": len(r.oracle_fail), "hangs": r.hangs,
                               "distribution": dict(sorted(r.stats.items(), key=lambda kv: -kv[1])[:25])}
@@ -157,7 +159,7 @@ def run_property(pid, spec, tier, seed, t0):
         again = 0
         for _ in range(3):
             try:
-                go = C.run_go(f["kind"], f["session"], watchdog_ms=10000)
+                go = C.run_go(f["kind"], f["session"], watchdog_ms=10000, extra_env=f.get("env"))
                 if go[-1] is not None and go[-1][1].startswith("fail"):
                     again += 1
             except Exception:
@@ -212,11 +214,11 @@ def run_property(pid, spec, tier, seed, t0):
         try:
             if len(sess) > 2:
                 want = C.verdict_class(f["verdict"])
-                sess = C.shrink_session(f["kind"], sess, lambda s: C.fails_again(f["kind"], s, want, f["impl"]))
+                sess = C.shrink_session(f["kind"], sess, lambda s: C.fails_again(f["kind"], s, want, f["impl"], f.get("env")))
         except Exception as e:  # shrinking is best effort
             notes.append("shrink failed: %r" % e)
         replay = C.write_replay(pid, seed, {"property": pid, "kind": f["kind"], "session": sess,
-                                            "oracle_verdict": f["verdict"], "impl_output": f["impl"],
+                                            "oracle_verdict": f["verdict"], "impl_output": f["impl"], "env": f.get("env"),
                                             "broken": broken, "failing_cases_found": len(new_fails)})
         violations = len(new_fails)
         C.log("VIOLATION property=%s replay=%s" % (pid, replay))
@@ -225,7 +227,7 @@ def run_property(pid, spec, tier, seed, t0):
                    "searched_cases": searched + tot.evaluations, "notes": notes}
         if tot.disagreements:
             d = tot.disagreements[0]
-            payload.update({"kind": d["kind"], "session": d["session"], "impl_output": d["impl"], "model_output": d["model"]})
+            payload.update({"kind": d["kind"], "session": d["session"], "impl_output": d["impl"], "model_output": d["model"], "env": d.get("env")})
         replay = C.write_replay(pid, seed, payload)
         violations = 1
         C.log("VIOLATION property=%s replay=%s no-failing-input-found" % (pid, replay))
